@@ -119,12 +119,37 @@ fn check_reader(name: &'static str, c: &Case) -> Verdict {
     }
     let data = Arc::new(bytes);
     let opts = ReadOpts { max_events: 50_000, ..ReadOpts::default() };
-    let (sync_t, _) = drv.read(&data, &Delivery::Plain, &c.doc, &opts);
-    if !damaged && !matches!(c.damage, Damage::RawText) && sync_t.iter().any(|e| matches!(e, Ev::Err { .. } | Ev::Runaway)) {
-        return fail1(format!("c16.baseline-read-error:{name}"), summarize(&sync_t));
-    }
-    let Some((async_t, st)) = read_async(name, &data, &c.doc, &c.script, c.workers as usize, &opts) else {
-        return fail1(shard::HARNESS_PANIC, format!("no async reader for {name}"));
+    // A damaged input can make a reader panic (that is C15's subject, with its own list of sites).
+    // Here only the relation counts: both twins panicking on the same damaged bytes is agreement,
+    // one of them panicking alone is a difference. On valid input a panic stays a failure.
+    let (sync_t, async_t, st) = if damaged {
+        let a = panics::catch(|| drv.read(&data, &Delivery::Plain, &c.doc, &opts));
+        let b = panics::catch(|| read_async(name, &data, &c.doc, &c.script, c.workers as usize, &opts));
+        match (a, b) {
+            (Ok((s, _)), Ok(Some((t, st)))) => (s, t, st),
+            (Ok(_), Ok(None)) => return fail1(shard::HARNESS_PANIC, format!("no async reader for {name}")),
+            (Err(p), Err(q)) => {
+                if p.in_harness() || q.in_harness() {
+                    return fail1(shard::HARNESS_PANIC, format!("{} / {}", p.describe(), q.describe()));
+                }
+                return Ok(Pass::new(false, key_of(c)).label("damaged-input").label("both-twins-panic(C15's subject)"));
+            }
+            (Err(p), Ok(_)) | (Ok(_), Err(p)) => {
+                if p.in_harness() {
+                    return fail1(shard::HARNESS_PANIC, p.describe());
+                }
+                return fail1(format!("c16.reader.damaged.one-twin-panics:{name}"), format!("on the same damaged bytes one of the sync / async readers panics and the other does not: {}", p.describe()));
+            }
+        }
+    } else {
+        let (sync_t, _) = drv.read(&data, &Delivery::Plain, &c.doc, &opts);
+        if !matches!(c.damage, Damage::RawText) && sync_t.iter().any(|e| matches!(e, Ev::Err { .. } | Ev::Runaway)) {
+            return fail1(format!("c16.baseline-read-error:{name}"), summarize(&sync_t));
+        }
+        let Some((async_t, st)) = read_async(name, &data, &c.doc, &c.script, c.workers as usize, &opts) else {
+            return fail1(shard::HARNESS_PANIC, format!("no async reader for {name}"));
+        };
+        (sync_t, async_t, st)
     };
     // Error *kinds* are not asserted (they differ through wrapping: UnexpectedEof vs InvalidData …);
     // whether, where (stage) and after which events an error is reported is. Positions after a
